@@ -53,9 +53,15 @@ def replay_args(tag, rec):
                  'sample': {'argv': gendrive.argv_of(rec, '<out>'), 'spec_accepts': rec['accept'], 'perturbation': rec['pert']}}
 
 
+def count_sets(maxn, counts=None):
+    r = set(range(1, maxn + 1))
+    c = counts or {}
+    return dict(N1s=c.get('n1', r), N2s=c.get('n2', r), N3s=c.get('n3', r))
+
+
 def m1_generate(rep, tier):
     """exhaustive run of the generator machine over all draws (tiny counts)"""
-    res = tlc.run('MC_Gen', dict(MaxN=2, NumInsts={1} if tier == 'quick' else {1, 2}, Perturb=False, Generate=True,
+    res = tlc.run('MC_Gen', dict(MaxN=2, N1s={1, 2}, N2s={1, 2}, N3s={1, 2}, NumInsts={1} if tier == 'quick' else {1, 2}, Perturb=False, Generate=True,
                                  TypesUsed={'ha', 'sm', 'hr', 'spa'}, Rich=False),
                   spec='MSpec', invariants=M1_INV, label='MPGen machine over every random draw (counts <= 2)', timeout=3000)
     tlc.require_ok(res, rep.pid)
@@ -63,7 +69,7 @@ def m1_generate(rep, tier):
     rep.notes.append('M1 generator machine, all draws: %d states' % res['distinct'])
 
 
-def collect(rep, pool, tier, seed, perturb, nseeds, maxn=2, rich=False, sim=None, label=''):
+def collect(rep, pool, tier, seed, perturb, nseeds, maxn=2, rich=False, sim=None, label='', counts=None, types=None):
     """Runs MC_Gen, replays vectors, returns list of traces of accepted runs."""
     traces = []
     seen = set()
@@ -85,7 +91,8 @@ def collect(rep, pool, tier, seed, perturb, nseeds, maxn=2, rich=False, sim=None
         return True
     res = engine.tlc_replay(rep, pool, 'MC_Gen', replay_args,
                             consts=dict(MaxN=maxn, NumInsts={1, 2}, Perturb=perturb, Generate=False,
-                                        TypesUsed={'ha', 'sm', 'hr', 'spa'}, Rich=rich),
+                                        TypesUsed=types or {'ha', 'sm', 'hr', 'spa'}, Rich=rich,
+                                        **count_sets(maxn, counts)),
                             spec='MSpec', invariants=['ParserOK', 'FamilySound', 'RejectBeforeWrite', 'ExportArgs'],
                             label=label, on_result=on_result, export_filter=flt, timeout=3000)
     rep.notes.append('%s: %d argument vectors exported, %d generator runs traced' % (label, res['exports'], len(traces)))
